@@ -43,6 +43,10 @@ def build_inputs(body):
             alts.append([("sign", s, None, isref) for s in (-1, 0, 1)])
         elif base == "bool":
             alts.append([("bool", bv, None, isref) for bv in (False, True)])
+        elif base in ("alloc::vec::Vec<u32>", "[u32]", "[u8]", "alloc::vec::Vec<u8>"):
+            alts.append([("digits", base, sym, isref)])
+        elif base in ("R", "Self") or (len(base) == 1 and base.isupper() and ty.startswith("&mut")):
+            alts.append([("opaque", base, sym, isref)])
         elif base in ("T", "U") and len(base) == 1:
             # generic numeric parameter (e.g. powsign's exponent): an unsigned magnitude
             alts.append([("uint", "u64", "U" + sym, isref)])
@@ -70,6 +74,12 @@ def make_state(body, combo):
         elif kind == "sint":
             v = INT(Poly.sym(sym), x)
             desc.append("%s:%s" % (sym, x))
+        elif kind == "digits":
+            v = ("digits", sym)
+            desc.append("%s:digits" % sym)
+        elif kind == "opaque":
+            v = ("opaque", "param " + sym)
+            desc.append("%s:opaque" % sym)
         elif kind == "sign":
             v = SIGN(x)
             desc.append("sign:%d" % x)
@@ -138,6 +148,8 @@ class Ctx5:
             return (Poly.sym(sym) * x).subst(m) if x != 0 else Poly()
         if kind in ("mag", "uint", "sint"):
             return Poly.sym(sym).subst(m)
+        if kind == "digits":
+            return Poly.sym("M" + sym).subst(m)
         raise Mismatch("argument %d is not numeric" % i)
 
     def sm(self, i):
@@ -867,3 +879,131 @@ def check_modular(ctx, res):
 
 def check_roots(ctx, res):
     run_targets(ctx, res, root_targets, "R5-root-sign", 3, "R5: BigInt roots = sign(a) * root(|a|); even root / sqrt of a negative panics")
+
+
+# ------------------------------------------------------------------------------------------
+# constructors, BigUint ^ BigUint decision order, random range terms
+
+
+def o_ctor(sign_idx, mag_idx):
+    def f(c):
+        s = c.combo[sign_idx - 1][1]
+        return c.init_val(mag_idx) * s
+
+    return f
+
+
+def o_ctor_opt(sign_idx, mag_idx):
+    def f(c):
+        s = c.combo[sign_idx - 1][1]
+        sym = c.combo[mag_idx - 1][2]
+        key = "parsed:" + sym
+        if key not in c.st.bools:
+            raise Mismatch("the digits were never parsed")
+        if not c.st.bools[key]:
+            return ("none",)
+        return ("some", c.init_val(mag_idx) * s)
+
+    return f
+
+
+def o_upow(c):
+    A = c.init_val(1)
+    E = c.init_val(2)
+    kz = c.st.known_zero(E)
+    if kz is None:
+        raise NeedCase(E)
+    if kz:
+        return Poly.const(1)
+    if A.is_const() and A.const_value() == 1:
+        return Poly.const(1)
+    ka = c.st.known_zero(A)
+    if ka is None:
+        raise NeedCase(A)
+    if ka:
+        return Poly()
+    for ty in ("u64", "u128"):
+        if c.st.bools.get("fits_%s(%r)" % (ty, E)):
+            return opaque_sym("pow", A, E).subst(c.st.subst)
+    if any(k.startswith("fits_") for k in c.st.bools):
+        return "panic"
+    return opaque_sym("pow", A, E).subst(c.st.subst)
+
+
+def o_bigint_range(c):
+    sl, L = c.sm(2)
+    su, U = c.sm(3)
+    lo, hi = c.init_val(2), c.init_val(3)
+    if order_of(c, 2, 3) >= 0:
+        return "panic"
+    if sl == 0:
+        return opaque_sym("below", U).subst(c.st.subst)
+    if su == 0:
+        return lo + opaque_sym("below", L).subst(c.st.subst)
+    return lo + opaque_sym("below", hi - lo).subst(c.st.subst)
+
+
+def o_biguint_range(c):
+    lo, hi = c.init_val(2), c.init_val(3)
+    d = hi - lo
+    if not ((repr(lo), repr(hi)) in c.st.lt):
+        if (repr(hi), repr(lo)) in c.st.lt or d.is_zero():
+            return "panic"
+        kz = c.st.known_zero(lo)
+        if not (kz is True and c.st.known_zero(hi) is False):
+            raise Mismatch("order of the bounds was never established")
+    kz = c.st.known_zero(lo)
+    if kz is None:
+        raise NeedCase(lo)
+    if kz:
+        return opaque_sym("below", hi).subst(c.st.subst)
+    return lo + opaque_sym("below", d).subst(c.st.subst)
+
+
+def ctor_targets(facts):
+    out = []
+    F = facts.find
+    for b in F(suffix="bigint::BigInt::from_biguint"):
+        out.append((b, o_ctor(1, 2), "return", "sign * magnitude, canonical"))
+    for nm in ("new", "from_slice", "from_bytes_be", "from_bytes_le"):
+        for b in F(suffix="bigint::BigInt::" + nm):
+            out.append((b, o_ctor(1, 2), "return", "sign * magnitude(digits), canonical"))
+    for b in F(suffix="bigint::BigInt::assign_from_slice"):
+        out.append((b, o_ctor(2, 3), "arg1", "self := sign * magnitude(digits), canonical"))
+    for nm in ("from_radix_be", "from_radix_le"):
+        for b in F(suffix="bigint::BigInt::" + nm):
+            out.append((b, o_ctor_opt(1, 2), "return", "Some(sign * magnitude) / None"))
+    return out
+
+
+def upow_targets(facts):
+    out = []
+    ops, classes = r2.analyse(facts)
+    leaf = {b.path for b in ops if classes[b.path]["kind"] == "leaf"}
+    for b in facts.bodies:
+        if b.path not in leaf:
+            continue
+        if b.trait == "num_traits::Pow" and b.name == "pow" and b.self_ty in ("biguint::BigUint", "&biguint::BigUint") and b.trait_args and "BigUint" in b.trait_args[0]:
+            out.append((b, o_upow, "return", "1 if a == 1 or e == 0; 0 if a == 0; else a^e (0^0 = 1)"))
+    return out
+
+
+def range_targets(facts):
+    out = []
+    for b in facts.find(suffix="bigrand::RandBigInt>::gen_bigint_range"):
+        out.append((b, o_bigint_range, "return", "lbound + below(ubound - lbound) with the zero-bound special cases"))
+    for b in facts.find(suffix="bigrand::RandBigInt>::gen_biguint_range"):
+        out.append((b, o_biguint_range, "return", "lbound + below(ubound - lbound)"))
+    return out
+
+
+def check_constructors(ctx, res):
+    run_targets(ctx, res, ctor_targets, "R5-constructor", 8, "R5: from_biguint, new, from_slice, from_bytes_*, assign_from_slice, from_radix_* build sign * magnitude and are canonical for every (Sign, magnitude) pair including inconsistent ones")
+
+
+def check_upow(ctx, res):
+    run_targets(ctx, res, upow_targets, "R5-pow-biguint-exp", 2, "R5: BigUint ^ BigUint decides `a == 1 or e == 0 -> 1` before `a == 0 -> 0` (0^0 = 1) in all val/ref forms, then narrows the exponent to u64, u128, else panics")
+
+
+def check_ranges(ctx, res):
+    run_targets(ctx, res, range_targets, "R5-range-term", 2, "R5: gen_biguint_range / gen_bigint_range return lbound + below(ubound - lbound) (below(ubound) for lbound = 0, lbound + below(|lbound|) for ubound = 0) and panic unless lbound < ubound")
